@@ -48,6 +48,7 @@ pub fn plan(property: &str, tier: &str) -> Option<CheckPlan> {
         "C07" => Some(c07(seed, tier, thorough)),
         "C08" => Some(c08(seed, tier, thorough)),
         "C09" => Some(c09(seed, tier, thorough)),
+        "C11" => Some(c11(seed, tier, thorough)),
         _ => None,
     }
 }
@@ -214,5 +215,49 @@ fn c06(seed: u64, tier: &str, thorough: bool) -> CheckPlan {
             "rerun_after_violation_succeeded".into(), "eintr_transparent".into(), "short_write_transparent".into(), "error_cases".into()],
         exhaustive: false,
         extra: json!({"carriers": n_car, "catchers": n_cat}),
+    }
+}
+
+fn c11(seed: u64, tier: &str, thorough: bool) -> CheckPlan {
+    use crate::checks::c11::{CARRIERS, SITES};
+    let mut jobs = vec![];
+    let asg = if thorough { "ternary" } else { "binary" };
+    for (s, _, _) in SITES {
+        for (c, _, _) in CARRIERS {
+            jobs.push(job("C11", "template", derive(seed, "c11one", jobs.len() as u64), tier, json!({"steps": format!("{s}/{c}"), "assignments": asg})));
+        }
+        jobs.push(job("C11", "faults", seed, tier, json!({"steps": format!("{s}/direct")})));
+        jobs.push(job("C11", "faults", seed, tier, json!({"steps": format!("{s}/seq-map+display/wrapper")})));
+    }
+    let mut rng = Prng::new(derive(seed, "c11multi", 0));
+    let n_multi = if thorough { 1500 } else { 150 };
+    for i in 0..n_multi {
+        let n = 2 + rng.below(3) as usize;
+        let steps: Vec<String> = (0..n).map(|_| format!("{}/{}", rng.pick(SITES).0, rng.pick(CARRIERS).0)).collect();
+        jobs.push(job("C11", "template", derive(seed, "c11multi", i + 1), tier, json!({"steps": steps.join("+"), "assignments": asg})));
+        if i % 5 == 0 {
+            jobs.push(job("C11", "faults", seed, tier, json!({"steps": steps.join("+")})));
+        }
+    }
+    CheckPlan {
+        property: "C11".into(),
+        tier: tier.into(),
+        seed,
+        level: "exploration".into(),
+        jobs,
+        rule: "One evaluation = one run of an effect template (1-4 effectful builtins, each inside one carrier: direct, wrapper function, closure, map/filter/reduce callback, \
+               default parameter, top-level let, taken/untaken branch, unforced lazy sequence, method chain, error handler) under one permission assignment \
+               (all 64 on/off assignments plus unset-default variants; all 729 three-valued assignments in the thorough tier) with recording doubles on writer, clock, random source and sleep; \
+               plus seam-fault runs (write error/zero/EINTR/short at each write, non-finite/negative/huge/backward clock values, extreme random words). \
+               Exhaustive over assignments per template, sampled over multi-step templates. Distinct = (template, assignment, outcome class) / (template, fault, outcome class).".into(),
+        assumptions: vec![
+            "regex compilation has no injectable seam; for it only the outcome (PermissionError vs value) is observable".into(),
+            "the order in which a template reaches its effect sites is declared in the template and cross-checked against the reference run".into(),
+        ],
+        opts: SupOpts::default(),
+        required_probes: vec!["refused_site".into(), "refused_at_instantiate".into(), "unset_permission_default_used".into(), "write_fault_to_output_failure".into(),
+            "soft_write_fault_transparent".into(), "clock_fault_runs".into(), "rng_fault_runs".into()],
+        exhaustive: false,
+        extra: json!({"sites": SITES.len(), "carriers": CARRIERS.len()}),
     }
 }
